@@ -10,14 +10,16 @@ mkdir -p "$BUILD"
 exec 9>"$BUILD/.lock"
 flock 9
 LOG="$BUILD/build.log"
-if [ ! -f "$BUILD/build.ninja" ] || ! grep -q "CMAKE_HOME_DIRECTORY:INTERNAL=$REPO\$" "$BUILD/CMakeCache.txt" 2>/dev/null; then
-    rm -rf "$BUILD/CMakeCache.txt" "$BUILD/CMakeFiles"
+if [ ! -f "$BUILD/build.ninja" ] || ! grep -q "CMAKE_HOME_DIRECTORY:INTERNAL=$REPO\$" "$BUILD/CMakeCache.txt" 2>/dev/null \
+   || ! grep -q "DISABLE_DMAKE:BOOL=ON" "$BUILD/CMakeCache.txt" 2>/dev/null; then
+    # (re)configure; object files are kept. DISABLE_DMAKE: the build must not rewrite /repo/Makefile
+    rm -f "$BUILD/CMakeCache.txt"
     LAUNCH=""
     if command -v ccache >/dev/null 2>&1; then LAUNCH="-DCMAKE_CXX_COMPILER_LAUNCHER=ccache"; fi
     cmake -G Ninja -S "$REPO" -B "$BUILD" -DCMAKE_BUILD_TYPE=Release \
         "-DCMAKE_CXX_FLAGS=-O1 -g0 -DDANMAR_CPPCHECK_VERIF -Wno-error" \
         -DCMAKE_CXX_FLAGS_RELEASE="" \
-        -DBUILD_TESTS=OFF -DUSE_MATCHCOMPILER=On -DBUILD_GUI=OFF $LAUNCH >"$LOG" 2>&1 || { echo "ERROR build failed (cmake), see $LOG"; tail -20 "$LOG"; exit 2; }
+        -DBUILD_TESTS=OFF -DUSE_MATCHCOMPILER=On -DBUILD_GUI=OFF -DDISABLE_DMAKE=ON $LAUNCH >"$LOG" 2>&1 || { echo "ERROR build failed (cmake), see $LOG"; tail -20 "$LOG"; exit 2; }
 fi
 # shellcheck disable=SC2086
 ninja -C "$BUILD" $TARGETS >>"$LOG" 2>&1 || { echo "ERROR build failed (ninja), see $LOG"; tail -40 "$LOG"; exit 2; }
